@@ -5,6 +5,7 @@ package message
 import (
 	"context"
 	"sync"
+	"time"
 
 	"github.com/ThreeDotsLabs/watermill"
 	"github.com/ThreeDotsLabs/watermill/zzverif/vrt"
@@ -181,7 +182,11 @@ func HarnessC06TwoClosersRunning() {
 // progress (released at an arbitrary moment): the first call may give up on CloseTimeout; neither call may
 // return nil while the invocation is still running (the light version of CloseTwice / TwoClosersRunning).
 func HarnessC06CloseTwiceRunning() {
-	r, err := NewRouter(RouterConfig{CloseTimeout: 0}, watermill.NopLogger{})
+	closeTimeout := time.Duration(0) // the default (30s)
+	if vrt.Bool("negative.CloseTimeout") {
+		closeTimeout = -time.Second // "do not wait for handlers": Close reports the timeout at once
+	}
+	r, err := NewRouter(RouterConfig{CloseTimeout: closeTimeout}, watermill.NopLogger{})
 	vrt.Assert(err == nil, "router")
 	st := &c06State{}
 	sub := &directSubscriber{}
@@ -199,7 +204,10 @@ func HarnessC06CloseTwiceRunning() {
 	vrt.Assert(r.RunHandlers(ctx) == nil, "handlers started")
 	sub.chans[0] <- NewMessage("m", nil)
 	<-entered
-	go func() { close(release) }()
+	released := vrt.Bool("handler.returns") // a handler may also outlive every CloseTimeout: Close must not hang
+	if released {
+		go func() { close(release) }()
+	}
 	for k := 0; k < 2; k++ {
 		err := r.Close()
 		vrt.Tag("close.call", k)
@@ -209,7 +217,7 @@ func HarnessC06CloseTwiceRunning() {
 		}
 	}
 	vrt.AtQuiescence(func() {
-		vrt.Assert(st.started == st.finished, "every started invocation ran to completion")
+		vrt.Assert(!released || st.started == st.finished, "every started invocation ran to completion")
 	})
 }
 
